@@ -412,6 +412,10 @@ class Repo:
                 raise NotConstant(f'binop {e}')
             raise NotConstant('binop')
         if isinstance(node, ast.Call):
+            if isinstance(node.func, ast.Attribute) and node.func.attr in ('items', 'keys', 'values') and not node.args:
+                base = f(node.func.value)
+                if isinstance(base, dict):
+                    return list(getattr(base, node.func.attr)())
             fn = dotted(node.func)
             if fn in ('bytes', 'tb') and len(node.args) == 1 and not node.keywords:
                 if fn == 'tb' and not self._tb_is_bytes(mi):
